@@ -14,6 +14,14 @@ Line-protocol driver for the calc-steps kernel (C16).
     → the same from the cache that holds the user inputs and the values of `<pre>` (evaluated first);
     the log lists the executions of the actions only
 
+* `vexecfrom <fuel> ; <n:p,p preds> ; <user inputs n=v> ; <pre> ; <n=base,mod:callee,callee formulas> ; <actions>`
+    → the VALUED cache (`executeV`-style, one action at a time) from the cache that holds the user inputs with their
+    values and the values of `<pre>`: after every action the held values `<n=v …>` sorted by element, joined by `|`.
+    Values are numbers or `N` (None).  The evaluation function is the harness' formula shape: start from `base`, for
+    every call in source order `r = (r*3 + nz(value of the callee)) % 1000003` (`nz`: None ↦ 5), `None` when `mod ≠ 0`
+    and `mod ∣ r`; the callee's value is looked up among the values of the precedents (`f` reads nothing else); a
+    callee WITHOUT a value poisons the result (`999999999`).
+
 Actions are written `calc 0 1|paste 1 0|clear`.
 -/
 namespace Driver.CalcSteps
@@ -96,8 +104,79 @@ def doGen (fuel : Nat) (preds : List (Nat × List Nat)) (inputs targets pre : Li
     ++ showNodes (sortNat (preHeld (predFn preds) fuel targets c0)) ++ " ; "
     ++ showNodes (sortNat c.held) ++ "/" ++ showNodes (sortNat c.inputs)
 
+/-! ### the valued cache -/
+
+structure Spec where
+  base : Nat
+  noneMod : Nat
+  calls : List Nat
+
+def poison : Nat := 999999999
+
+/-- the harness' formula shape as an evaluation function that reads the precedents' values only -/
+def valF (specs : List (Nat × Spec)) (pf : Node → List Node) : Node → List (Option (Option Nat)) → Option Nat :=
+  fun n vs =>
+    match specs.find? (·.1 == n) with
+    | none => some poison
+    | some (_, sp) =>
+      let env := (pf n).zip vs
+      let r := sp.calls.foldl (fun (r : Option Nat) c =>
+        match r, env.find? (·.1 == c) with
+        | some r, some (_, some v) => some ((r * 3 + (match v with | some x => x | none => 5)) % 1000003)
+        | _, _ => none) (some sp.base)
+      match r with
+      | none => some poison
+      | some r => if sp.noneMod ≠ 0 ∧ r % sp.noneMod = 0 then none else some r
+
+def parseVal (s : String) : Option (Option Nat) := if s = "N" then some none else s.toNat?.map some
+
+def parseInput (s : String) : Option (Nat × Option Nat) :=
+  match s.splitOn "=" with
+  | [a, b] => do some ((← a.toNat?), (← parseVal b))
+  | _ => none
+
+def parseSpec (s : String) : Option (Nat × Spec) :=
+  match s.splitOn "=" with
+  | [a, b] =>
+    match b.splitOn ":" with
+    | [hd, cs] =>
+      match hd.splitOn "," with
+      | [ba, mo] => do
+        let calls ← ((cs.splitOn ",").filter (· ≠ "")).mapM String.toNat?
+        some ((← a.toNat?), { base := (← ba.toNat?), noneMod := (← mo.toNat?), calls := calls })
+      | _ => none
+    | _ => none
+  | _ => none
+
+def showVal : Option Nat → String
+  | none => "N"
+  | some x => toString x
+
+def showData (d : List (Nat × Option Nat)) : String :=
+  " ".intercalate ((d.toArray.qsort (fun a b => a.1 < b.1)).toList.map (fun e => toString e.1 ++ "=" ++ showVal e.2))
+
+def doVExecFrom (fuel : Nat) (preds : List (Nat × List Nat)) (inputs : List (Nat × Option Nat)) (pre : List Nat)
+    (specs : List (Nat × Spec)) (acts : List Action) : String :=
+  let pf : Node → List Node := predFn preds
+  let f := valF specs pf
+  let c0 : VCache (Option Nat) :=
+    pre.foldl (fun c n => evalNodeV f pf fuel n c) { data := inputs, inputs := inputs.map (·.1) }
+  let step := fun (acc : VCache (Option Nat) × List String) (a : Action) =>
+    let c := execActionV f pf fuel acc.1 a
+    (c, acc.2 ++ [showData c.data])
+  let r := acts.foldl step (c0, [])
+  "|".intercalate r.2
+
 def step (line : String) : String :=
   match line.splitOn " ; " with
+  | [h, p, i, t, sp, x] =>
+    match (h.splitOn " ").filter (· ≠ "") with
+    | ["vexecfrom", f] =>
+      match f.toNat?, (toks p).mapM parsePreds, (toks i).mapM parseInput, nats t, (toks sp).mapM parseSpec,
+          ((x.splitOn "|").filter (fun t => t ≠ "" ∧ t ≠ "-")).mapM parseAction with
+      | some f, some p, some i, some t, some sp, some a => doVExecFrom f p i t sp a
+      | _, _, _, _, _, _ => "bad-op"
+    | _ => "bad-op"
   | [h, p, i, t, x] =>
     match (h.splitOn " ").filter (· ≠ "") with
     | ["gen", f] =>
